@@ -459,7 +459,19 @@ func checkDebSigning(c *Ctx, r *Report, pa *provAnalysis) {
 	// signature member name: "_gpg" + type returned by the signer
 	okName := false
 	if bo, ok := sigMember.name.(*ssa.BinOp); ok {
-		okName = fromSigner(bo.Y, 1)
+		typ := bo.Y
+		// the name is put together in the helper that writes the member: its
+		// parameter stands for the argument at the call in Package
+		if prm, isPrm := typ.(*ssa.Parameter); isPrm && sigMember.site != nil {
+			if h := sigMember.site.Call.StaticCallee(); h != nil {
+				for i, q := range h.Params {
+					if q == prm && i < len(sigMember.site.Call.Args) {
+						typ = sigMember.site.Call.Args[i]
+					}
+				}
+			}
+		}
+		okName = fromSigner(typ, 1) && constOrEmpty(bo.X) == "_gpg"
 	}
 	r.Check(okName, "F12-deb", "deb: signature member is _gpg<type>", c.instrPos(sigMember.call), "the member name must be \"_gpg\" followed by the signature type the signer reports")
 	// the signature body is the signer's result
